@@ -236,18 +236,43 @@ def equal (op1 op2 : Nat) (h : Heap) : Int :=
   else if (h op1).den ≠ (h op2).den then 0                 -- :48-57
   else 1                                                   -- :59
 
+/-- step 3 of `mpq_cmp_numden` (cmp.c:108-144) on the magnitudes: cross multiply and compare.
+    For op2_is_int tmp1 is NUM(op1) itself (:111-116) — the same value, since then den2 = 1. -/
+def cmpCross (num1_sign : Int) (n1 d1 n2 d2 : Nat) : Int :=
+  let tmp1 := n1 * d2                                      -- :115 / :121-128
+  let tmp2 := n2 * d1                                      -- :131-138
+  let tmp1_size : Int := (limbs tmp1 : Nat)                -- size after the `-= 0 == mpn_mul(...)` adjustment
+  let tmp2_size : Int := (limbs tmp2 : Nat)
+  let cc := if tmp1_size - tmp2_size ≠ 0 then tmp1_size - tmp2_size
+            else cmpNat tmp1 tmp2                          -- :141-142
+  if num1_sign < 0 then -cc else cc                        -- :144
+
+/-- steps 1 and 2 of `mpq_cmp_numden` (cmp.c:72-106) on the magnitudes `n1 = |num1|`, `n2 = |num2|`:
+    limb-count pre-check, bit-count pre-check, then step 3. -/
+def cmpPre (num1_sign : Int) (n1 d1 n2 d2 : Nat) (op2_is_int : Int) : Int :=
+  let num1_size : Int := (limbs n1 : Nat)                  -- :54
+  let num2_size : Int := (limbs n2 : Nat)                  -- :72
+  let den1_size : Int := (limbs d1 : Nat)
+  let den2_size : Int := (limbs d2 : Nat)
+  let tmp1_size := num1_size + den2_size                   -- :74
+  let tmp2_size := num2_size + den1_size                   -- :75
+  if tmp1_size > tmp2_size + 1 then num1_sign else         -- :82-84
+  if tmp2_size + op2_is_int > tmp1_size + 1 then -num1_sign else   -- :85-87
+  let bits1 : Int := tmp1_size * 64 - (clzTop n1 : Nat) - (clzTop d2 : Nat)   -- :94-96
+  let bits2 : Int := tmp2_size * 64 - (clzTop n2 : Nat) - (clzTop d1 : Nat)   -- :98-100
+  if bits1 > bits2 + 1 then num1_sign else                 -- :102-103
+  if bits2 + op2_is_int > bits1 + 1 then -num1_sign else   -- :104-105
+  cmpCross num1_sign n1 d1 n2 d2                           -- :108-144
+
 /-- `mpq_cmp_numden` (cmp.c:27-145) on the values of the four mpz operands.  The returned integer is
     the C return value (only its sign is specified). -/
 def cmpNumDen (n1 d1 n2 d2 : Int) : Int :=
   let num1_size := size n1                                 -- cmp.c:30
-  let den1_size := size d1                                 -- :31
   let num2_size := size n2                                 -- :32
-  let den2_size := size d2                                 -- :33
   if num1_size = 0 then -num2_size else                    -- :46-47
   if num2_size = 0 then num1_size else                     -- :48-49
   if decide (num1_size < 0) ≠ decide (num2_size < 0) then num1_size else -- :50-51  (num1_size ^ num2_size) < 0
   let num1_sign := num1_size                               -- :53
-  let num1_size := (num1_size.natAbs : Int)              -- :54
   let op2_is_int : Int := if d2 = 1 then 1 else 0          -- :58-59  (den2_size | d2h) == 1
   if op2_is_int = 1 ∧ d1 = 1 then                          -- :60  op2_is_int == (den1_size | d1h): both are integers
     if num1_sign ≠ num2_size then num1_sign - num2_size    -- :65-66
@@ -255,23 +280,7 @@ def cmpNumDen (n1 d1 n2 d2 : Int) : Int :=
       let cmp := cmpNat n1.natAbs n2.natAbs                -- :68
       if num1_sign > 0 then cmp else -cmp                  -- :69
   else
-  let num2_size := (num2_size.natAbs : Int)              -- :72
-  let tmp1_size := num1_size + den2_size                   -- :74
-  let tmp2_size := num2_size + den1_size                   -- :75
-  if tmp1_size > tmp2_size + 1 then num1_sign else         -- :82-84
-  if tmp2_size + op2_is_int > tmp1_size + 1 then -num1_sign else   -- :85-87
-  let bits1 : Int := tmp1_size * 64 - clzTop n1.natAbs - clzTop d2.natAbs   -- :94-96
-  let bits2 : Int := tmp2_size * 64 - clzTop n2.natAbs - clzTop d1.natAbs   -- :98-100
-  if bits1 > bits2 + 1 then num1_sign else                 -- :102-103
-  if bits2 + op2_is_int > bits1 + 1 then -num1_sign else   -- :104-105
-  -- 3. cross multiply (:110-138); for op2_is_int tmp1 is NUM(op1) itself (:111-116), same value
-  let tmp1 := n1.natAbs * d2.natAbs
-  let tmp2 := n2.natAbs * d1.natAbs
-  let tmp1_size := ((limbs tmp1 : Nat) : Int)                  -- :115 / :122-128
-  let tmp2_size := ((limbs tmp2 : Nat) : Int)                  -- :131-138
-  let cc := if tmp1_size - tmp2_size ≠ 0 then tmp1_size - tmp2_size
-            else cmpNat tmp1 tmp2                          -- :141-142
-  if num1_sign < 0 then -cc else cc                        -- :144
+    cmpPre num1_sign n1.natAbs d1.natAbs n2.natAbs d2.natAbs op2_is_int   -- :72-144
 
 /-- `mpq_cmp` (cmp.c:147-151) -/
 def cmp (op1 op2 : Nat) (h : Heap) : Int :=
